@@ -163,12 +163,45 @@ func pfDeadClosure(fn *ssa.Function) bool {
 	return false
 }
 
-// pfDeadByFacts: the facts contain a constant condition with the opposite value (`if false {…}`):
-// the block they belong to never executes.
+// pfDeadByFacts: the facts are contradictory, so the block they belong to never executes: a constant
+// condition with the opposite value (`if false {…}`), a boolean Phi all of whose incoming values are
+// the opposite constant, a nil test whose outcome contradicts what the tested value is (a freshly
+// built error known nil, the nil constant known non-nil). Such blocks are what remains of copies of
+// code that the normaliser's tail duplication specialised for one helper return
+// (`err := fmt.Errorf(…); if err != nil { return err }; <rest>`).
 func pfDeadByFacts(fs []Fact) bool {
+	var constOf func(v ssa.Value, d int) (bool, bool)
+	constOf = func(v ssa.Value, d int) (bool, bool) {
+		if cb, ok := constBool(v); ok {
+			return cb, true
+		}
+		ph, isPhi := v.(*ssa.Phi)
+		if !isPhi || d > 3 || len(ph.Edges) == 0 {
+			return false, false
+		}
+		first, ok := constOf(ph.Edges[0], d+1)
+		if !ok {
+			return false, false
+		}
+		for _, e := range ph.Edges[1:] {
+			if cb, ok := constOf(e, d+1); !ok || cb != first {
+				return false, false
+			}
+		}
+		return first, true
+	}
 	for _, f := range fs {
-		if cb, ok := constBool(f.Cond); ok && cb != f.Pol {
+		if cb, ok := constOf(f.Cond, 0); ok && cb != f.Pol {
 			return true
+		}
+		if x, trueMeansNonNil, ok := errNilTest(f.Cond); ok {
+			nonNil := f.Pol == trueMeansNonNil
+			if nonNil && isNilConst(stripConv(x)) {
+				return true
+			}
+			if !nonNil && definitelyNonNil(x) {
+				return true
+			}
 		}
 	}
 	return false
@@ -612,4 +645,896 @@ func (p *Program) pfReturnCases(fn *ssa.Function) []ReturnCase {
 		out = append(out, rc)
 	}
 	return out
+}
+
+// ---------------------------------------------------------------------------------------------
+// Values as seen after one particular call ("per reaching definition")
+//
+// When alternative calls deliver their results into the same variables
+//
+//	if c { a, b, err = f() } else { a, b, err = g() }; if err != nil { … }
+//
+// the code that follows tests and uses merge values: Phis of the block where the alternatives join, or
+// loads of a local with one store per alternative. An obligation about ONE of the calls ("after f
+// failed …") is about the paths on which that call was the one that executed. pfAfterView resolves
+// values on exactly those paths: a Phi of a block that lies strictly after the call (within the same
+// loop iteration) contributes only the edges that can be taken after the call; a load of a local
+// yields only the stores executed after the call when every path from the call to the load passes
+// one of them.
+
+type pfAfterView struct {
+	p      *Program
+	call   *ssa.Call
+	head   *ssa.BasicBlock // head of the innermost loop around the call (nil: none)
+	region map[*ssa.BasicBlock]bool
+	after  map[*ssa.BasicBlock]int // 1 = strictly after the call, 2 = not
+}
+
+func (p *Program) pfAfter(call *ssa.Call) *pfAfterView {
+	w := &pfAfterView{p: p, call: call, after: map[*ssa.BasicBlock]int{}}
+	if l := innermostLoop(call.Parent(), call.Block()); l != nil {
+		w.head = l.Head
+	}
+	w.region = pfIterRegion(call, w.head)
+	return w
+}
+
+// strictlyAfter: b executes only after the call within the iteration (reachable from the call's
+// block without passing the loop head, and the call's block is not reachable from b that way).
+func (w *pfAfterView) strictlyAfter(b *ssa.BasicBlock) bool {
+	if v, ok := w.after[b]; ok {
+		return v == 1
+	}
+	res := 2
+	if w.region[b] && b != w.call.Block() && b != w.head {
+		back := false
+		seen := map[*ssa.BasicBlock]bool{b: true}
+		work := append([]*ssa.BasicBlock{}, b.Succs...)
+		for len(work) > 0 && !back {
+			x := work[len(work)-1]
+			work = work[:len(work)-1]
+			if x == w.head || seen[x] {
+				continue
+			}
+			seen[x] = true
+			if x == w.call.Block() {
+				back = true
+			}
+			work = append(work, x.Succs...)
+		}
+		if !back {
+			res = 1
+		}
+	}
+	w.after[b] = res
+	return res == 1
+}
+
+// instrAfter: the instruction executes after the call in the same iteration.
+func (w *pfAfterView) instrAfter(in ssa.Instruction) bool {
+	if in.Block() == w.call.Block() {
+		return instrIndex(in) > instrIndex(w.call)
+	}
+	return w.strictlyAfter(in.Block())
+}
+
+// phiEdges: which incoming edges of the Phi can be taken on a path from the call.
+func (w *pfAfterView) phiEdges(q *ssa.Phi) []bool {
+	b := q.Block()
+	ok := make([]bool, len(q.Edges))
+	narrow := w.strictlyAfter(b)
+	any := false
+	for i := range ok {
+		ok[i] = !narrow || (i < len(b.Preds) && w.region[b.Preds[i]])
+		any = any || ok[i]
+	}
+	if !any {
+		for i := range ok {
+			ok[i] = true
+		}
+	}
+	return ok
+}
+
+// storesAt: the stores to local a that can be its last store at instruction `at` on a path from the
+// call. narrowed=false: the plain reaching stores (no store after the call is certain to have run).
+func (w *pfAfterView) storesAt(a *ssa.Alloc, at ssa.Instruction) (sts []*ssa.Store, complete, narrowed bool) {
+	all, okk := w.p.storesReaching(a, at)
+	if !w.instrAfter(at) {
+		return all, okk, false
+	}
+	var kept []*ssa.Store
+	isKept := map[ssa.Instruction]bool{}
+	for _, s := range all {
+		if w.instrAfter(s) {
+			kept = append(kept, s)
+			isKept[s] = true
+		}
+	}
+	if len(kept) == 0 {
+		return all, okk, false
+	}
+	// every path from the call to `at` passes one of the kept stores
+	seen := map[*ssa.BasicBlock]bool{}
+	var walk func(b *ssa.BasicBlock, start int) bool
+	walk = func(b *ssa.BasicBlock, start int) bool {
+		for i := start; i < len(b.Instrs); i++ {
+			if isKept[b.Instrs[i]] {
+				return true
+			}
+			if b.Instrs[i] == at {
+				return false
+			}
+		}
+		for _, s := range b.Succs {
+			if s == w.head || seen[s] {
+				continue
+			}
+			seen[s] = true
+			if !walk(s, 0) {
+				return false
+			}
+		}
+		return true
+	}
+	if !walk(w.call.Block(), instrIndex(w.call)+1) {
+		return all, okk, false
+	}
+	return kept, !w.p.allocInfo(a).unknown, true
+}
+
+// values is possibleValues restricted to the paths that executed the call.
+func (w *pfAfterView) values(v ssa.Value) []ssa.Value {
+	p := w.p
+	var out []ssa.Value
+	seen := map[ssa.Value]bool{}
+	var walk func(v ssa.Value, d int)
+	walk = func(v ssa.Value, d int) {
+		if v == nil || seen[v] {
+			return
+		}
+		seen[v] = true
+		if d > 8 {
+			out = append(out, v)
+			return
+		}
+		switch x := v.(type) {
+		case *ssa.Phi:
+			ok := w.phiEdges(x)
+			for i, e := range x.Edges {
+				if ok[i] {
+					walk(e, d+1)
+				}
+			}
+			return
+		case *ssa.UnOp:
+			if x.Op == token.MUL {
+				if a, isAlloc := x.X.(*ssa.Alloc); isAlloc {
+					sts, okk, narrowed := w.storesAt(a, x)
+					zero := !narrowed && p.mayHoldZero(a, x)
+					if ai := p.allocInfo(a); !ai.unknown && len(ai.stores) > 0 && (okk || zero) {
+						for _, s := range sts {
+							walk(s.Val, d+1)
+						}
+						if zero {
+							out = append(out, zeroConst(x.Type()))
+						}
+						return
+					}
+				}
+			}
+		}
+		out = append(out, v)
+	}
+	walk(v, 0)
+	return out
+}
+
+// isResult: on the paths that executed the call, every value that may flow into v is its result idx.
+func (w *pfAfterView) isResult(v ssa.Value, idx int) bool {
+	vals := w.values(v)
+	if len(vals) == 0 {
+		return false
+	}
+	n := w.call.Common().Signature().Results().Len()
+	for _, pv := range vals {
+		c, i := asCall(pv)
+		if c != w.call {
+			return false
+		}
+		if !(i == idx || (i == -1 && n == 1 && idx == 0)) {
+			return false
+		}
+	}
+	return true
+}
+
+// pointeeIsResult: ptr is a local whose content at instruction `at` is, on the paths that executed
+// the call, result idx of the call, and the local is not assigned again between `at` and the end of
+// the iteration (so what a pointer-receiver method saw at `at` still describes the variable).
+func (w *pfAfterView) pointeeIsResult(ptr ssa.Value, at ssa.Instruction, idx int) bool {
+	a, ok := ptr.(*ssa.Alloc)
+	if !ok {
+		return false
+	}
+	af := w.p.allocInfo(a)
+	if af.unknown || len(af.stores) == 0 {
+		return false
+	}
+	if len(af.stores) == 1 {
+		return w.isResult(af.stores[0].Val, idx)
+	}
+	if at == nil {
+		return false
+	}
+	sts, complete, narrowed := w.storesAt(a, at)
+	if !narrowed || !complete || len(sts) == 0 {
+		return false
+	}
+	for _, s := range sts {
+		if !w.isResult(s.Val, idx) {
+			return false
+		}
+	}
+	// no later re-assignment in this iteration
+	for _, in := range reachableAfter(at, func(in ssa.Instruction) bool { return w.head != nil && in.Block() == w.head }) {
+		if s, isStore := in.(*ssa.Store); isStore && s.Addr == ssa.Value(a) && in.Block() != w.head {
+			return false
+		}
+	}
+	return true
+}
+
+// errOf: do the facts decide the error result of the call (yes = known nil) on the paths that
+// executed it?
+func (w *pfAfterView) errOf(fs []Fact) tri {
+	res := w.call.Common().Signature().Results()
+	errIdx := pfResultIndex(w.call.Common().Signature(), "error")
+	if errIdx < 0 {
+		return unknownTri
+	}
+	for _, f := range fs {
+		x, trueMeansNonNil, ok := errNilTest(f.Cond)
+		if !ok {
+			continue
+		}
+		vals := w.values(x)
+		if len(vals) != 1 {
+			continue
+		}
+		cc, idx := asCall(vals[0])
+		if cc != w.call || !(res.Len() == 1 && idx == -1 || idx == errIdx) {
+			continue
+		}
+		if f.Pol == trueMeansNonNil {
+			return noTri
+		}
+		return yesTri
+	}
+	return unknownTri
+}
+
+// isZero: do the facts decide `<result idx of the call>.IsZero()` on the paths that executed it?
+func (w *pfAfterView) isZero(fs []Fact, idx int) tri {
+	for _, f := range fs {
+		zc, _ := asCall(f.Cond)
+		if zc == nil || calleeName(zc.Common()) != "IsZero" {
+			continue
+		}
+		recv := callRecv(zc.Common())
+		if recv == nil {
+			continue
+		}
+		if _, isAlloc := recv.(*ssa.Alloc); isAlloc {
+			if !w.pointeeIsResult(recv, zc, idx) {
+				continue
+			}
+		} else if !w.isResult(recv, idx) {
+			continue
+		}
+		if f.Pol {
+			return yesTri
+		}
+		return noTri
+	}
+	return unknownTri
+}
+
+// ---------------------------------------------------------------------------------------------
+// Results collected in one local and returned once
+//
+//	var res T                      |   if a { return x, T{F: …}, nil }
+//	if a { res.F = … } else if b { res.G = … }     |   if b { return x, T{G: …}, nil }
+//	return x, res, nil             |   return x, T{}, nil
+//
+// Both columns return the same values on the same paths. In the left one the return block is shared
+// and the returned value is a load of the local; what the local holds depends on the way the block
+// was entered. pfSplitCollected judges such a return per reaching definition: one case per incoming
+// edge of the return block (looking through blocks that merely join and jump on), with the facts of
+// that edge and a verdict on what the local holds there.
+
+const (
+	pfNotCollected  = 0 // the case was passed through unchanged
+	pfNeverWritten  = 1 // no assignment to (a field of) the local on any path through this edge: zero value
+	pfAlwaysWritten = 2 // every path through this edge assigned the fields in Must
+	pfMaybeWritten  = 3 // some paths through this edge assigned fields, others may not have
+)
+
+type pfCollectedCase struct {
+	ReturnCase
+	Written int
+	Must    map[string]bool // fields assigned on every path (Written == pfAlwaysWritten)
+}
+
+type pfLocalState struct {
+	top  bool
+	may  bool
+	must map[string]bool
+}
+
+// pfLocalFieldStates: for a struct local that is only ever assigned field by field, the state at the
+// end of every block: may = some field was assigned since the variable was (re)initialised, must =
+// the fields assigned on every path. ok=false when the local is also assigned as a whole, or its
+// address is used in a way that is not modelled.
+func (p *Program) pfLocalFieldStates(a *ssa.Alloc) (map[*ssa.BasicBlock]pfLocalState, bool) {
+	pt, isPtr := a.Type().Underlying().(*types.Pointer)
+	if !isPtr {
+		return nil, false
+	}
+	if _, isStruct := pt.Elem().Underlying().(*types.Struct); !isStruct {
+		return nil, false
+	}
+	fieldOf := map[ssa.Instruction]string{} // store instruction -> top-level field assigned
+	var okAddr func(v ssa.Value, field string, d int) bool
+	okAddr = func(v ssa.Value, field string, d int) bool {
+		if d > 4 {
+			return false
+		}
+		for _, r := range referrersOf(v) {
+			switch x := r.(type) {
+			case *ssa.Store:
+				if x.Addr != v {
+					return false // the address itself is stored somewhere
+				}
+				if field == "" {
+					return false // assignment of the whole variable
+				}
+				fieldOf[x] = field
+			case *ssa.FieldAddr:
+				f := field
+				if f == "" {
+					f = fieldName(x.X.Type(), x.Field)
+				}
+				if !okAddr(x, f, d+1) {
+					return false
+				}
+			case *ssa.UnOp, *ssa.DebugRef:
+			case ssa.CallInstruction:
+				if field != "" || callMayWriteThroughArg(x.Common(), a) {
+					return false
+				}
+			default:
+				return false
+			}
+		}
+		return true
+	}
+	if !okAddr(a, "", 0) {
+		return nil, false
+	}
+	fn := a.Parent()
+	out := map[*ssa.BasicBlock]pfLocalState{}
+	for _, b := range fn.Blocks {
+		out[b] = pfLocalState{top: true}
+	}
+	transfer := func(b *ssa.BasicBlock, in pfLocalState) pfLocalState {
+		st := pfLocalState{may: in.may, must: map[string]bool{}}
+		for k := range in.must {
+			st.must[k] = true
+		}
+		for _, ins := range b.Instrs {
+			if ins == ssa.Instruction(a) {
+				st = pfLocalState{must: map[string]bool{}}
+			}
+			if f, isSt := fieldOf[ins]; isSt {
+				st.may = true
+				st.must[f] = true
+			}
+		}
+		return st
+	}
+	same := func(x, y pfLocalState) bool {
+		if x.top != y.top || x.may != y.may || len(x.must) != len(y.must) {
+			return false
+		}
+		for k := range x.must {
+			if !y.must[k] {
+				return false
+			}
+		}
+		return true
+	}
+	for changed, iter := true, 0; changed && iter < 100; iter++ {
+		changed = false
+		for _, b := range fn.Blocks {
+			in := pfLocalState{top: true}
+			if b == fn.Blocks[0] {
+				in = pfLocalState{must: map[string]bool{}}
+			}
+			for _, pr := range b.Preds {
+				ps := out[pr]
+				if ps.top {
+					continue
+				}
+				if in.top {
+					in = pfLocalState{may: ps.may, must: map[string]bool{}}
+					for k := range ps.must {
+						in.must[k] = true
+					}
+					continue
+				}
+				in.may = in.may || ps.may
+				for k := range in.must {
+					if !ps.must[k] {
+						delete(in.must, k)
+					}
+				}
+			}
+			if in.top {
+				continue
+			}
+			if st := transfer(b, in); !same(st, out[b]) {
+				out[b] = st
+				changed = true
+			}
+		}
+	}
+	return out, true
+}
+
+// pfSplitCollected: see above. idx selects the result that may be a collected local.
+func (p *Program) pfSplitCollected(cases []ReturnCase, idx int) []pfCollectedCase {
+	var out []pfCollectedCase
+	for _, rc := range cases {
+		pass := pfCollectedCase{ReturnCase: rc}
+		if rc.Pred != nil || idx >= len(rc.Ret.Results) {
+			out = append(out, pass)
+			continue
+		}
+		ld, isLoad := rc.Ret.Results[idx].(*ssa.UnOp)
+		if !isLoad || ld.Op != token.MUL || ld.Block() != rc.Ret.Block() {
+			out = append(out, pass)
+			continue
+		}
+		a, isAlloc := ld.X.(*ssa.Alloc)
+		if !isAlloc || a.Block() == ld.Block() {
+			out = append(out, pass)
+			continue
+		}
+		states, ok := p.pfLocalFieldStates(a)
+		touched := false // the return block itself assigns to the local before the load
+		for _, ins := range ld.Block().Instrs {
+			if ins == ssa.Instruction(ld) {
+				break
+			}
+			if st, isSt := ins.(*ssa.Store); isSt && allocOf(st.Addr) == a {
+				touched = true
+			}
+		}
+		if !ok || touched || len(ld.Block().Preds) < 2 {
+			out = append(out, pass)
+			continue
+		}
+		var emit func(from, to *ssa.BasicBlock, d int)
+		emit = func(from, to *ssa.BasicBlock, d int) {
+			// a block that only joins paths and jumps on: judge its incoming edges instead
+			if _, isJump := from.Instrs[len(from.Instrs)-1].(*ssa.Jump); isJump && len(from.Instrs) == 1 && len(from.Preds) >= 2 && d < 3 {
+				for _, pp := range from.Preds {
+					emit(pp, from, d+1)
+				}
+				return
+			}
+			st := states[from]
+			nrc := pfCollectedCase{ReturnCase: rc}
+			nrc.Pred = from
+			nrc.Facts = p.FactsOnEdge(from, to)
+			nrc.Results = append([]ssa.Value{}, rc.Results...)
+			switch {
+			case st.top || !st.may:
+				nrc.Written = pfNeverWritten
+				nrc.Results[idx] = zeroConst(ld.Type())
+			case len(st.must) > 0:
+				nrc.Written = pfAlwaysWritten
+				nrc.Must = st.must
+			default:
+				nrc.Written = pfMaybeWritten
+			}
+			out = append(out, nrc)
+		}
+		for _, pr := range ld.Block().Preds {
+			emit(pr, ld.Block(), 0)
+		}
+	}
+	return out
+}
+
+// ---------------------------------------------------------------------------------------------
+// Equivalent spellings of library predicates
+//
+// The rules look for API predicates (meta.FindStatusCondition, metav1.IsControlledBy, emptiness
+// tests). Code may spell the same predicate with the standard-library search helpers; the
+// equivalences below are evident from the vendored library sources:
+//
+//	meta.FindStatusCondition(conds, T)   ==  i := slices.IndexFunc(conds, func(c) bool { return c.Type == T });
+//	                                         i >= 0 ? &conds[i] : nil
+//	metav1.IsControlledBy(obj, owner)    ==  refs := obj.GetOwnerReferences();
+//	                                         i := slices.IndexFunc(refs, func(r) bool { return r.Controller != nil && *r.Controller });
+//	                                         i >= 0 && refs[i].UID == owner.GetUID()
+//	len(s) == 0                          ==  s == ""        (strings)
+
+// pfEmptyCmp is lenCmp extended by the comparison of a string with "".
+func pfEmptyCmp(cond ssa.Value) (x ssa.Value, trueMeansNonEmpty bool, ok bool) {
+	if x, ne, ok := lenCmp(cond); ok {
+		return x, ne, true
+	}
+	b, isBin := cond.(*ssa.BinOp)
+	if !isBin || (b.Op != token.EQL && b.Op != token.NEQ) {
+		return nil, false, false
+	}
+	for _, pair := range [][2]ssa.Value{{b.X, b.Y}, {b.Y, b.X}} {
+		if s, isStr := constString(pair[1]); isStr && s == "" {
+			if _, isConst := pair[0].(*ssa.Const); !isConst {
+				return pair[0], b.Op == token.NEQ, true
+			}
+		}
+	}
+	return nil, false, false
+}
+
+// pfFuncValue: v is a function used as a value (named function, closure, method value).
+func pfFuncValue(v ssa.Value) *ssa.Function {
+	switch x := stripConv(v).(type) {
+	case *ssa.Function:
+		return x
+	case *ssa.MakeClosure:
+		f, _ := x.Fn.(*ssa.Function)
+		return f
+	}
+	return nil
+}
+
+// pfSearchCall: call is slices.IndexFunc(S, pred) or slices.ContainsFunc(S, pred) with a predicate
+// whose body is available; returns S and the predicate.
+func pfSearchCall(call *ssa.Call) (slice ssa.Value, pred *ssa.Function, index bool, ok bool) {
+	if call == nil || call.Common().IsInvoke() || len(call.Common().Args) != 2 {
+		return nil, nil, false, false
+	}
+	id := calleeID(call.Common())
+	if id != "slices.IndexFunc" && id != "slices.ContainsFunc" {
+		return nil, nil, false, false
+	}
+	f := pfFuncValue(call.Common().Args[1])
+	if f == nil || f.Blocks == nil || len(f.Params) != 1 {
+		return nil, nil, false, false
+	}
+	return call.Common().Args[0], f, id == "slices.IndexFunc", true
+}
+
+// pfParamField: v is `<the only parameter of pred>.<field>` (the parameter may be copied into a local).
+func (p *Program) pfParamField(pred *ssa.Function, v ssa.Value, field string) bool {
+	root, ok := p.pfFieldLoad(v, field)
+	return ok && p.pfRootValue(root) == ssa.Value(pred.Params[0])
+}
+
+// pfPredTypeEquals: the predicate is true exactly for elements whose field Type equals a string
+// constant: every return yields `elem.Type == T` (or the constant false).
+func (p *Program) pfPredTypeEquals(pred *ssa.Function) (string, bool) {
+	typ, n := "", 0
+	for _, rc := range p.returnCases(pred) {
+		if len(rc.Results) != 1 {
+			return "", false
+		}
+		r := rc.Results[0]
+		if cb, isC := constBool(r); isC {
+			if cb {
+				return "", false
+			}
+			continue
+		}
+		b, isBin := r.(*ssa.BinOp)
+		if !isBin || b.Op != token.EQL {
+			return "", false
+		}
+		found := false
+		for _, pair := range [][2]ssa.Value{{b.X, b.Y}, {b.Y, b.X}} {
+			if s, isStr := constString(pair[1]); isStr && p.pfParamField(pred, pair[0], "Type") {
+				if typ != "" && typ != s {
+					return "", false
+				}
+				typ, found = s, true
+			}
+		}
+		if !found {
+			return "", false
+		}
+		n++
+	}
+	return typ, n > 0
+}
+
+// pfPredIsControllerRef: the predicate is true exactly for owner references that are controller
+// references: every possibly-true return yields `*ref.Controller` (reached under ref.Controller != nil).
+func (p *Program) pfPredIsControllerRef(pred *ssa.Function) bool {
+	isCtrl := func(v ssa.Value) bool {
+		u, ok := v.(*ssa.UnOp)
+		return ok && u.Op == token.MUL && p.pfParamField(pred, u.X, "Controller")
+	}
+	n := 0
+	for _, rc := range p.returnCases(pred) {
+		if len(rc.Results) != 1 {
+			return false
+		}
+		r := rc.Results[0]
+		if cb, isC := constBool(r); isC {
+			if !cb {
+				continue
+			}
+			// constant true: only under the fact that *ref.Controller is true
+			ok := false
+			for _, f := range rc.Facts {
+				if f.Pol && isCtrl(f.Cond) {
+					ok = true
+				}
+			}
+			if !ok {
+				return false
+			}
+			n++
+			continue
+		}
+		f := p.mkFact(r, true) // folds `x == true` / `!x`
+		if !f.Pol || !isCtrl(f.Cond) {
+			return false
+		}
+		n++
+	}
+	return n > 0
+}
+
+// pfFoundCondition: v is a pointer to the first condition of type T in a condition list, or nil when
+// there is none — meta.FindStatusCondition(conds, T) or its spelling with slices.IndexFunc. id is the
+// value that identifies this lookup (compare with p.sameValue).
+func (p *Program) pfFoundCondition(v ssa.Value) (id ssa.Value, conds ssa.Value, typ string, ok bool) {
+	v = stripConv(v)
+	if call, _ := asCall(v); call != nil {
+		if isCallTo(call.Common(), pkgMeta+".FindStatusCondition") && len(call.Common().Args) == 2 {
+			if s, isStr := constString(call.Common().Args[1]); isStr {
+				return call, call.Common().Args[0], s, true
+			}
+		}
+		return nil, nil, "", false
+	}
+	elem := func(e ssa.Value) (ssa.Value, string, bool) {
+		ia, isIA := e.(*ssa.IndexAddr)
+		if !isIA {
+			return nil, "", false
+		}
+		sc, _ := asCall(ia.Index)
+		s, pred, index, isSearch := pfSearchCall(sc)
+		if !isSearch || !index || !p.sameValue(s, ia.X) {
+			return nil, "", false
+		}
+		t, isType := p.pfPredTypeEquals(pred)
+		if !isType {
+			return nil, "", false
+		}
+		return ia.X, t, true
+	}
+	switch x := v.(type) {
+	case *ssa.IndexAddr:
+		if c, t, isElem := elem(x); isElem {
+			return x, c, t, true
+		}
+	case *ssa.Phi:
+		for _, e := range x.Edges {
+			e = stripConv(e)
+			if isNilConst(e) {
+				continue
+			}
+			c, t, isElem := elem(e)
+			if !isElem || (ok && (t != typ || !p.sameValue(c, conds))) {
+				return nil, nil, "", false
+			}
+			conds, typ, ok = c, t, true
+		}
+		if ok {
+			return x, conds, typ, true
+		}
+	}
+	return nil, nil, "", false
+}
+
+// pfNegativeTest decomposes `x < 0`, `x == -1`, `x >= 0`, `x != -1`, `0 > x`, … into (x, condTrueMeansNegative).
+func pfNegativeTest(cond ssa.Value) (x ssa.Value, trueMeansNegative bool, ok bool) {
+	b, isBin := cond.(*ssa.BinOp)
+	if !isBin {
+		return nil, false, false
+	}
+	l, r, op := b.X, b.Y, b.Op
+	if _, isC := constInt(l); isC {
+		l, r = r, l
+		switch op {
+		case token.LSS:
+			op = token.GTR
+		case token.GTR:
+			op = token.LSS
+		case token.LEQ:
+			op = token.GEQ
+		case token.GEQ:
+			op = token.LEQ
+		}
+	}
+	n, isC := constInt(r)
+	if !isC {
+		return nil, false, false
+	}
+	switch {
+	case op == token.LSS && n == 0, op == token.LEQ && n == -1, op == token.EQL && n == -1:
+		return l, true, true
+	case op == token.GEQ && n == 0, op == token.GTR && n == -1, op == token.NEQ && n == -1:
+		return l, false, true
+	}
+	return nil, false, false
+}
+
+// pfControlledBy: do the facts decide metav1.IsControlledBy(obj, owner) for an object satisfying
+// objOK and an owner satisfying ownerOK? Recognises the library call (and its canonical spellings)
+// and the predicate written out with slices.IndexFunc over obj.GetOwnerReferences().
+func (p *Program) pfControlledBy(fs []Fact, objOK, ownerOK func(ssa.Value) bool) tri {
+	for _, pol := range []bool{true, false} {
+		if _, ok := p.findFactCall(fs, pol, []string{pkgMetaV1 + ".IsControlledBy"}, func(cc *ssa.CallCommon) bool {
+			return len(cc.Args) == 2 && objOK(cc.Args[0]) && ownerOK(cc.Args[1])
+		}); ok {
+			if pol {
+				return yesTri
+			}
+			return noTri
+		}
+	}
+	// idx := slices.IndexFunc(obj.GetOwnerReferences(), <is controller reference>)
+	ctrlIndex := func(v ssa.Value) (refs ssa.Value, ok bool) {
+		sc, _ := asCall(v)
+		s, pred, index, isSearch := pfSearchCall(sc)
+		if !isSearch || !index || !p.pfPredIsControllerRef(pred) {
+			return nil, false
+		}
+		gc, _ := asCall(s)
+		if gc == nil || calleeName(gc.Common()) != "GetOwnerReferences" || callRecv(gc.Common()) == nil || !objOK(callRecv(gc.Common())) {
+			return nil, false
+		}
+		return s, true
+	}
+	for _, f := range fs {
+		if x, trueMeansNeg, ok := pfNegativeTest(f.Cond); ok && f.Pol == trueMeansNeg {
+			if _, isCtrl := ctrlIndex(x); isCtrl {
+				return noTri // no controller reference at all
+			}
+		}
+		b, isBin := f.Cond.(*ssa.BinOp)
+		if !isBin || (b.Op != token.EQL && b.Op != token.NEQ) {
+			continue
+		}
+		equal := (b.Op == token.EQL) == f.Pol
+		for _, pair := range [][2]ssa.Value{{b.X, b.Y}, {b.Y, b.X}} {
+			root, isUID := p.pfFieldLoad(pair[0], "UID")
+			if !isUID {
+				continue
+			}
+			ia, isIA := root.(*ssa.IndexAddr)
+			if !isIA {
+				continue
+			}
+			refs, isCtrl := ctrlIndex(ia.Index)
+			if !isCtrl || !p.sameValue(refs, ia.X) {
+				continue
+			}
+			gu, _ := asCall(pair[1])
+			if gu == nil || calleeName(gu.Common()) != "GetUID" || callRecv(gu.Common()) == nil || !ownerOK(callRecv(gu.Common())) {
+				continue
+			}
+			if equal {
+				return yesTri
+			}
+			return noTri
+		}
+	}
+	return unknownTri
+}
+
+// ---------------------------------------------------------------------------------------------
+// Variables captured by closures
+
+// pfCapturedVar: ptr is the address of a variable as a closure sees it (a FreeVar, possibly handed
+// down through several closure levels) or the variable itself (an Alloc); returns the Alloc in the
+// function that declares the variable.
+func pfCapturedVar(ptr ssa.Value) *ssa.Alloc {
+	for d := 0; d < 6 && ptr != nil; d++ {
+		switch x := ptr.(type) {
+		case *ssa.Alloc:
+			return x
+		case *ssa.FreeVar:
+			ptr = freeVarBinding(x.Parent(), x)
+		default:
+			return nil
+		}
+	}
+	return nil
+}
+
+// pfClosureMayWrite: the closure (or a closure it hands the variable on to) may assign to the
+// captured variable bound to ptr, or lets its address escape.
+func pfClosureMayWrite(mc *ssa.MakeClosure, ptr ssa.Value, d int) bool {
+	f, ok := mc.Fn.(*ssa.Function)
+	if !ok || d > 5 {
+		return true
+	}
+	for i, b := range mc.Bindings {
+		if b != ptr || i >= len(f.FreeVars) {
+			continue
+		}
+		fv := f.FreeVars[i]
+		for _, r := range referrersOf(fv) {
+			switch x := r.(type) {
+			case *ssa.UnOp, *ssa.DebugRef:
+			case *ssa.MakeClosure:
+				if pfClosureMayWrite(x, fv, d+1) {
+					return true
+				}
+			default:
+				return true
+			}
+		}
+	}
+	return false
+}
+
+// pfCapturedValues: ptr addresses a variable that closures capture (seen from the declaring function
+// or from inside a closure); returns the values assigned to it anywhere. ok=false when ptr is not
+// such a variable or it may be written in a way that is not modelled.
+func (p *Program) pfCapturedValues(ptr ssa.Value) ([]ssa.Value, bool) {
+	a := pfCapturedVar(ptr)
+	if a == nil {
+		return nil, false
+	}
+	captured := false
+	var out []ssa.Value
+	for _, r := range referrersOf(a) {
+		switch x := r.(type) {
+		case *ssa.Store:
+			if x.Addr != ssa.Value(a) {
+				return nil, false
+			}
+			out = append(out, x.Val)
+		case *ssa.UnOp, *ssa.DebugRef:
+		case *ssa.MakeClosure:
+			captured = true
+			if pfClosureMayWrite(x, a, 0) {
+				return nil, false
+			}
+		case *ssa.FieldAddr, *ssa.IndexAddr:
+			if derivedAddrWritten(x.(ssa.Value)) {
+				return nil, false
+			}
+		case ssa.CallInstruction:
+			if callMayWriteThroughArg(x.Common(), a) {
+				return nil, false
+			}
+		default:
+			return nil, false
+		}
+	}
+	if _, isFV := ptr.(*ssa.FreeVar); !isFV && !captured {
+		return nil, false // an ordinary local: possibleValues knows better (reaching stores)
+	}
+	return out, len(out) > 0
 }
